@@ -31,7 +31,7 @@ TIMEOUT = {"quick": 1200, "thorough": 7200}
 
 NAMES = ["c", "al", "ad", "l", "d", "s", "inst", "dyn", "tl", "tls", "u",
          "arr", "fl", "bg", "border", "frame", "mp", "bag", "pick", "lo",
-         "dv", "rng"]
+         "dv", "rng", "ud"]
 #: property-style trait types keep their value under another __dict__ key
 STORE = {"bag": "_traits_cache_bag", "pick": "_traits_cache_pick",
          "rng": "_traits_cache_rng"}
@@ -45,6 +45,7 @@ DECLARED = {"bg": "red", "border": "blue", "frame": "red", "mp": "a",
             "bag": [], "pick": "b"}
 CONTAINERS = {"al": "list", "ad": "dict", "l": "list", "d": "dict",
               "s": "set", "dyn": "list", "u": "list", "fl": "list",
+              "ud": "list",
               "bag": "list"}
 
 
@@ -114,6 +115,8 @@ def make_classes():
             tl = Tuple(List(Int), Int)
             tls = Tuple(List(Int), Str)
             u = Union(List(Int), None)
+            #: a Union with an explicit mutable default
+            ud = Union(List(Int), Str, default_value=[1, 2])
             arr = Array
             fl = Any(factory=list)
 
@@ -208,7 +211,8 @@ def submenu():
 VALID = {"c": 11, "al": [5], "ad": {"k": 1}, "l": [4], "d": {"k": 2},
          "s": {6}, "dyn": [8], "tl": ([3], 3), "tls": ([3], "q"), "u": [2],
          "fl": [1], "bg": "green", "border": "green", "mp": "b",
-         "bag": [3], "pick": "c", "lo": 0.5, "rng": 3, "dv": 4}
+         "bag": [3], "pick": "c", "lo": 0.5, "rng": 3, "dv": 4,
+         "ud": [9]}
 
 
 class World:
